@@ -1034,7 +1034,17 @@ class CSSSerializer:
                     continue
                 elif hasattr(val, 'cssText'):
                     # RGBColor or CSSValue if a CSSValueList
-                    out.append(val.cssText, type_)
+                    if (
+                        valuesOnly
+                        and isinstance(
+                            val, (cssutils.css.CSSFunction, cssutils.css.ColorValue)
+                        )
+                        and not isinstance(val, cssutils.css.CSSCalc)
+                    ):
+                        # without comments inside the function
+                        out.append(val.value, type_)
+                    else:
+                        out.append(val.cssText, type_)
                 else:
                     if val and val[0] == val[-1] and val[0] in '\'"':
                         val = helper.string(val[1:-1])
@@ -1118,6 +1128,15 @@ class CSSSerializer:
                 type_, val = item.type, item.value
                 if valuesOnly and type_ == cssutils.css.CSSComment:
                     continue
+                if (
+                    valuesOnly
+                    and isinstance(
+                        val, (cssutils.css.CSSFunction, cssutils.css.ColorValue)
+                    )
+                    and not isinstance(val, cssutils.css.CSSCalc)
+                ):
+                    # nested function without its comments
+                    val = val.value
                 out.append(val, type_)
             return out.value()
 
